@@ -58,7 +58,7 @@ theorem spec_maildirWrite (env : PEnv) (md : Maildir) (ms : MsgSt) {fid0 : Nat} 
   split
   · intro h; cases h
   rename_i fl _
-  refine wpo_bind_mono (spec_genname env md (some fl) fid0 c0 w 4096 _ (Frm.refl fa)) ?_
+  refine wpo_bind_mono (spec_genname env md (some fl) fid0 c0 w gennameAttempts _ (Frm.refl fa)) ?_
   rintro g w1 ⟨fr1, hnew⟩
   cases g with
   | none => intro h; cases h
